@@ -89,6 +89,7 @@ func main() {
 	if err != nil {
 		core.Fatalf("%v", err)
 	}
+	core.RemoveAtExit(dir)
 	defer os.RemoveAll(dir)
 	in := dir + "/cases.jsonl"
 	if len(os.Args) > 2 && os.Args[1] == "--replay" {
@@ -108,7 +109,6 @@ func main() {
 	}
 	// the pools also hold a sample of Select.tla's statement forms
 	run.Extra["model_statements_in_pools"] = gram.ExportForms(run)
-	defer os.Remove(os.Getenv("VERIF_EXTRA_STMTS"))
 	res := run.RunChild([]string{"--child", in}, dir+"/out.json", 20*time.Minute)
 	if res.TimedOut {
 		run.Violate(core.Violation{Sig: "recovery-hang", Clause: "recovery-mode parsing terminates on every input", Case: map[string]any{"text": res.Progress}})
